@@ -138,6 +138,12 @@ def _defs(spec, ctx, R):
         "tensor_frobenius_norm": lambda: T.tensor_frobenius_norm(A.copy()),
         "tensor_frobenius_norm:3d": lambda: T.tensor_frobenius_norm(A.copy().reshape(m, n, 1)),
     }
+    # every scipy storage form of the four components (DIA with junk padding, raw CSR with duplicate / cancelling duplicate entries, unsorted
+    # indices, BSR, DOK ...): all denote the same matrix, for the component-form entry point and for the container
+    forms = [dict(gen.sparse_storage_forms(rng, x)) for x in _comps(A)]
+    for lab in [l for l in forms[0] if all(l in d for d in forms)]:
+        fe["normQsparse:storage:" + lab] = (lambda lab=lab: U.normQsparse(*[d[lab].copy() for d in forms]))
+        fe["matrix_norm:sparse:storage:" + lab] = (lambda lab=lab: U.matrix_norm(U.SparseQuaternionMatrix(*[d[lab].copy() for d in forms], A.shape), "fro"))
     vals = {}
     for name, f in fe.items():
         try:
